@@ -354,6 +354,9 @@ func (m *Manager) startPrimary() error {
 		return fmt.Errorf("failed to create primary node: %w", err)
 	}
 
+	// Log rotation replaces the engine's WAL object: let the primary follow it
+	primary.SetWALProvider(m.currentWAL)
+
 	// Configure gRPC server options
 	opts := []grpc.ServerOption{
 		grpc.KeepaliveParams(keepalive.ServerParameters{
@@ -490,6 +493,15 @@ func (m *Manager) getWAL() (*wal.WAL, error) {
 	}
 
 	return nil, fmt.Errorf("engine does not provide WAL access")
+}
+
+// currentWAL returns the WAL the engine is writing to at the moment, or nil
+func (m *Manager) currentWAL() *wal.WAL {
+	current, err := m.getWAL()
+	if err != nil {
+		return nil
+	}
+	return current
 }
 
 // createListener creates a network listener for the gRPC server
